@@ -17,7 +17,10 @@ import (
 	"sort"
 	"strconv"
 	"strings"
+	"sync"
 	"time"
+
+	"golang.org/x/tools/go/ssa"
 
 	"fgsym/smt"
 	"fgsym/symex"
@@ -151,7 +154,7 @@ func findHarnessFiles(prop string) []harnessFile {
 	}
 	var res []harnessFile
 	for _, f := range out {
-		if f.dir == "internal/zzv" || dirs[f.dir] {
+		if f.dir == "internal/zzv" || dirs[f.dir] || strings.HasPrefix(filepath.Base(f.real), "zz_verif_common") {
 			res = append(res, f)
 		}
 	}
@@ -396,6 +399,12 @@ func runCheck(prop, tier string, verbose, keep bool, only string) int {
 	inconclusive := 0
 	engineFail := false
 
+	type hrun struct {
+		fn  *ssa.Function
+		res symex.HarnessResult
+	}
+	var runs []hrun
+	var allVCs []*symex.VC
 	for _, h := range hs {
 		if only != "" && !strings.Contains(h.Name(), only) {
 			continue
@@ -411,6 +420,43 @@ func runCheck(prop, tier string, verbose, keep bool, only string) int {
 		if verbose {
 			fmt.Fprintf(os.Stderr, "harness %s: %d paths, %d VCs, %.1fs symbolic execution\n", res.Name, res.Paths, len(res.VCs), res.Wall)
 		}
+		runs = append(runs, hrun{h, res})
+		allVCs = append(allVCs, res.VCs...)
+	}
+	// known-finding exclusion terms
+	extra := func(vc *symex.VC) []*smt.Term {
+		var ts []*smt.Term
+		for _, f := range findings {
+			if f.Status != "known" || f.Harness != vc.Harness || f.Label != vc.Label {
+				continue
+			}
+			t, ok, err := findingTerm(f, vc)
+			if err != nil {
+				fmt.Fprintf(os.Stderr, "ENGINE-FAILURE %v\n", err)
+				os.Exit(2)
+			}
+			if ok {
+				ts = append(ts, smt.Not(t))
+			}
+		}
+		return ts
+	}
+	tD := time.Now()
+	allVerdicts := symex.Discharge(allVCs, extra, opts)
+	if verbose {
+		fmt.Fprintf(os.Stderr, "discharged %d VCs in %.1fs\n", len(allVCs), time.Since(tD).Seconds())
+		vs := append([]symex.Verdict(nil), allVerdicts...)
+		sort.Slice(vs, func(i, j int) bool { return vs[i].Seconds > vs[j].Seconds })
+		for i := 0; i < len(vs) && i < 8; i++ {
+			fmt.Fprintf(os.Stderr, "  slow: %s/%-36s %-8s %6.1fs %s choices=%v\n", vs[i].VC.Harness, vs[i].VC.Label, vs[i].Res, vs[i].Seconds, vs[i].Solver, vs[i].VC.Choices)
+		}
+	}
+	verdictOf := map[*symex.VC]symex.Verdict{}
+	for _, v := range allVerdicts {
+		verdictOf[v.VC] = v
+	}
+	for _, hr := range runs {
+		h, res := hr.fn, hr.res
 		// group VCs by label
 		byLabel := map[string][]*symex.VC{}
 		var labels []string
@@ -420,35 +466,18 @@ func runCheck(prop, tier string, verbose, keep bool, only string) int {
 			}
 			byLabel[vc.Label] = append(byLabel[vc.Label], vc)
 		}
-		// known-finding exclusion terms
-		extra := func(vc *symex.VC) []*smt.Term {
-			var ts []*smt.Term
-			for _, f := range findings {
-				if f.Status != "known" || f.Harness != vc.Harness || f.Label != vc.Label {
-					continue
-				}
-				t, ok, err := findingTerm(f, vc)
-				if err != nil {
-					fmt.Fprintf(os.Stderr, "ENGINE-FAILURE %v\n", err)
-					os.Exit(2)
-				}
-				if ok {
-					ts = append(ts, smt.Not(t))
-				}
-			}
-			return ts
-		}
-		verdicts := symex.Discharge(res.VCs, extra, opts)
-		if verbose {
-			vs := append([]symex.Verdict(nil), verdicts...)
-			sort.Slice(vs, func(i, j int) bool { return vs[i].Seconds > vs[j].Seconds })
-			for i := 0; i < len(vs) && i < 8; i++ {
-				fmt.Fprintf(os.Stderr, "  slow: %-40s %-8s %6.1fs %s choices=%v\n", vs[i].VC.Label, vs[i].Res, vs[i].Seconds, vs[i].Solver, vs[i].VC.Choices)
-			}
+		var verdicts []symex.Verdict
+		for _, vc := range res.VCs {
+			verdicts = append(verdicts, verdictOf[vc])
 		}
 		vByLabel := map[string][]symex.Verdict{}
 		for _, v := range verdicts {
 			vByLabel[v.VC.Label] = append(vByLabel[v.VC.Label], v)
+		}
+		tR := time.Now()
+		reach := reachableAll(labels, byLabel, opts)
+		if verbose {
+			fmt.Fprintf(os.Stderr, "  reachability witnesses: %.1fs\n", time.Since(tR).Seconds())
 		}
 		for _, label := range labels {
 			vs := vByLabel[label]
@@ -537,7 +566,7 @@ func runCheck(prop, tier string, verbose, keep bool, only string) int {
 				}
 			}
 			// reachability witness: at least one path to this assertion site is satisfiable
-			s.Reachable = reachable(byLabel[label], opts)
+			s.Reachable = reach[label]
 			if !s.Reachable && label != "nopanic" && label != "unwinding" {
 				fmt.Printf("ENGINE-FAILURE vacuous obligation %s/%s: no satisfiable path reaches the assertion\n", res.Name, label)
 				engineFail = true
@@ -545,7 +574,11 @@ func runCheck(prop, tier string, verbose, keep bool, only string) int {
 			samples = append(samples, s)
 		}
 		// translator validation: replay satisfiable complete paths natively and compare records
-		nv, bad := native.validate(res, opts, 3)
+		tV := time.Now()
+		nv, bad := native.validate(eng, h, res, opts, 3)
+		if verbose {
+			fmt.Fprintf(os.Stderr, "  translator validation (%d traces): %.1fs\n", nv, time.Since(tV).Seconds())
+		}
 		validated += nv
 		if bad != "" {
 			fmt.Printf("ENGINE-FAILURE translator validation failed for %s: %s\n", res.Name, bad)
@@ -607,19 +640,54 @@ func runCheck(prop, tier string, verbose, keep bool, only string) int {
 	return exit
 }
 
-func reachable(vcs []*symex.VC, opts symex.DischargeOpts) bool {
-	for i, vc := range vcs {
-		if i >= 8 {
-			break
-		}
-		pe := symex.PathEnd{PC: vc.PC}
-		r, _, _ := symex.SolvePath(pe, opts)
-		if r == smt.Sat {
-			return true
-		}
+// reachableAll finds, per assertion label, one satisfiable path condition reaching it (vacuity guard).
+// Candidates are tried in parallel, shortest path condition first.
+func reachableAll(labels []string, byLabel map[string][]*symex.VC, opts symex.DischargeOpts) map[string]bool {
+	out := map[string]bool{}
+	var mu sync.Mutex
+	var wg sync.WaitGroup
+	sem := make(chan struct{}, 16)
+	o := opts
+	if o.FPTimeout > 90*time.Second {
+		o.FPTimeout = 90 * time.Second
 	}
-	return false
+	for pass := 0; pass < 2; pass++ {
+		for _, label := range labels {
+			if out[label] {
+				continue
+			}
+			vcs := append([]*symex.VC(nil), byLabel[label]...)
+			sort.SliceStable(vcs, func(i, j int) bool { return smt.Size(vcs[i].PC...) < smt.Size(vcs[j].PC...) })
+			if len(vcs) > 4 {
+				vcs = vcs[:4]
+			}
+			for _, vc := range vcs {
+				wg.Add(1)
+				go func(label string, vc *symex.VC) {
+					defer wg.Done()
+					sem <- struct{}{}
+					defer func() { <-sem }()
+					mu.Lock()
+					done := out[label]
+					mu.Unlock()
+					if done {
+						return
+					}
+					// pass 0: abstraction-guided only; pass 1: exact query for labels still without a witness
+					r, _, _ := symex.SolvePath(symex.PathEnd{PC: vc.PC, Nondets: vc.Nondets}, o, pass == 1)
+					if r == smt.Sat {
+						mu.Lock()
+						out[label] = true
+						mu.Unlock()
+					}
+				}(label, vc)
+			}
+		}
+		wg.Wait()
+	}
+	return out
 }
+
 
 func sanitize(s string) string {
 	return regexp.MustCompile(`[^A-Za-z0-9_.-]`).ReplaceAllString(s, "_")
